@@ -112,3 +112,21 @@ Proof.
   - simpl. unfold fstart, NEG_INF; simpl. repeat split; intros y Hy;
       repeat (destruct Hy as [<-|Hy]; [simpl; lia|]); try contradiction.
 Qed.
+
+(* ---- tie C: the complement sweep and the clipping mask as the code has them (translations of
+   the source text of Complement._sweep, Complement.fetch and _SolidTimeline.fetch, regenerated
+   from /repo on every run) ---- *)
+From CG Require Import Gen.Source Proofs.GenEq.
+
+Theorem C01_source_complement_is_model : forall xs a b, g_compl_sweep xs a b = compl_sweep xs a b.
+Proof. exact g_compl_sweep_eq. Qed.
+Print Assumptions C01_source_complement_is_model.
+
+Theorem C01_source_solid_is_model : forall a b rv, g_solid_fetch a b rv = [mkI a b Plain].
+Proof. exact g_solid_fetch_eq. Qed.
+Print Assumptions C01_source_solid_is_model.
+
+Theorem C01_source_finite_bounds_are_model :
+  (forall i, g_finite_start i = fstart i) /\ (forall i, g_finite_end i = fend i).
+Proof. exact (conj g_finite_start_eq g_finite_end_eq). Qed.
+Print Assumptions C01_source_finite_bounds_are_model.
